@@ -826,11 +826,12 @@ def r13(k: Kit) -> None:
     rep = k.rep
     rep.rule('C12.R13', 'SFTPClientFile.read: once the size has been '
              'replaced by "end of file - offset" (size < 0: everything up to '
-             'the end), the single un-retried handler.read() is reachable '
-             'only when block reads are disabled (read_len == 0); otherwise '
-             'the request goes through _SFTPFileReader, which re-requests '
-             'the remainder of a short reply - a server may return fewer '
-             'bytes than asked for at any time')
+             'the end), the single un-retried handler.read() is not '
+             'reachable - also when parallel block reads are disabled '
+             '(block_size None / 0): the request goes through '
+             '_SFTPFileReader, which re-requests the remainder of a short '
+             'reply - a server may return fewer bytes than asked for at any '
+             'time, and every server caps one READ')
     fi = k.func('sftp.SFTPClientFile.read')
     g = k.cfg(fi)
     ends = [n for n, c in k.calls_named(fi, '_end', 'self')]
@@ -858,8 +859,6 @@ def r13(k: Kit) -> None:
                 known.add(v)
 
         def blocks_off(x: Node, known=known) -> Optional[bool]:
-            if x.kind == 'atom' and dotted(x.ast) == 'self.read_len':
-                return False
             if x.kind == 'atom' and isinstance(x.ast, ast.Name) and \
                     x.ast.id in known:
                 return False
@@ -868,13 +867,14 @@ def r13(k: Kit) -> None:
             w = g.guarded_by(d.id, blocks_off, start=e.id)
             rep.check(w is None, 'C12.R13',
                       key(fi, 'read to end survives short replies'),
-                      'no path from the end-of-file size to a single READ '
-                      'while block reads are enabled',
+                      'no path from the end-of-file size to a single READ',
                       'read() with size -1 ("all data up to the end of the '
                       'file") issues one READ when the file fits a block and '
                       'returns whatever came back: with a server that '
                       'answers at most 4096 bytes per READ a 10000-byte file '
-                      'reads as 4096 bytes, no error', k.loc(fi, d),
+                      'reads as 4096 bytes, no error (with block_size=None '
+                      'a 5 MiB file reads as the 4 MiB one READ may carry)',
+                      k.loc(fi, d),
                       g.describe_path(w) if w else None)
 
 
@@ -916,6 +916,176 @@ def r14(k: Kit) -> None:
     rep.floor('C12.R14', 'copy_data call sites', n, 1)
 
 
+def r16(k: Kit) -> None:
+    """The server writes all of a WRITE or fails it."""
+    rep = k.rep
+    rep.rule('C12.R16', 'SFTPServer.write: the server opens its files '
+             'unbuffered (buffering=0 in open / open56), so one write() may '
+             'be partial; the count it returns is acted on - the write is '
+             'repeated until everything is written (or the count is '
+             'tested) - because FXP_WRITE and copy-data can only answer OK '
+             'or an error for the whole request and their handlers ignore '
+             'the returned count')
+    raw = 0
+    for q in ('sftp.SFTPServer.open', 'sftp.SFTPServer.open56'):
+        if not k.idx.has_func(q):
+            continue
+        fo = k.func(q)
+        for n, c in k.call_nodes(fo, lambda c: isinstance(c.func, ast.Name)
+                                 and c.func.id == 'open'):
+            if any(kw.arg == 'buffering' and isinstance(
+                    kw.value, ast.Constant) and kw.value.value == 0
+                    for kw in c.keywords):
+                raw += 1
+    rep.count('instances.unbuffered_opens', raw)
+    fi = k.func('sftp.SFTPServer.write')
+    g = k.cfg(fi)
+    rd = k.rd(fi)
+    wr = [(n, c) for n, c in k.calls_named(fi, 'write', 'file_obj')]
+    rep.floor('C12.R16', 'file writes in SFTPServer.write', len(wr), 1)
+    if not raw:
+        rep.ok('C12.R16', key(fi, 'short write is not success'),
+               'files are opened buffered: a buffered write is complete or '
+               'raises')
+        return
+    for n, c in wr:
+        looped = any(lab != 'exc' and (b == n.id or
+                                       g.path(b, n.id, follow_exc=False))
+                     for b, lab in g.succ[n.id])
+        tested = False
+        defs = {nm for nm, v in rd.defs[n.id]}
+        for a in g.nodes:
+            if a.kind == 'atom' and a.ast is not None and \
+                    g.path(n.id, a.id, follow_exc=False) and \
+                    defs & depends_on(g, rd, a.id, a.ast):
+                tested = True
+        rep.check(looped or tested, 'C12.R16',
+                  key(fi, 'short write is not success'),
+                  'the write is repeated / its count tested',
+                  'one unbuffered write() whose count is returned to '
+                  'handlers that ignore it: when the file system takes only '
+                  'part of a block (RLIMIT_FSIZE, quota, disk full) put() '
+                  'and copy() report success for a truncated destination',
+                  k.loc(fi, n))
+
+
+def r17(k: Kit) -> None:
+    """copy-data of a stated length fails when the source ends early."""
+    rep = k.rep
+    rep.rule('C12.R17', 'SFTPServerHandler._process_copy_data: when a '
+             'length was given (not "to end of file"), running out of '
+             'source data ends the request with an error, not with OK - '
+             'the client asked for exactly that many bytes and takes OK as '
+             '"all copied"')
+    fi = k.func('sftp.SFTPServerHandler._process_copy_data')
+    g = k.cfg(fi)
+    empties = [a for a in g.nodes if a.kind == 'atom' and
+               dotted(a.ast) == 'data']
+    rep.floor('C12.R17', 'end-of-source tests', len(empties), 1)
+
+    def to_end(x: Node) -> Optional[bool]:
+        if x.kind == 'atom' and dotted(x.ast) == 'read_to_end':
+            return True
+        return None
+    for a in empties:
+        bad = None
+        for b, lab in g.succ[a.id]:
+            if lab is not False:
+                continue
+            w = g.guarded_by(g.exit, to_end, start=b,
+                             extra_blocked=[a.id])
+            bad = bad or w
+        rep.check(bad is None, 'C12.R17',
+                  key(fi, 'early end of source is an error'),
+                  'OK after an empty read only when reading to end of file',
+                  'copy-data(length=1000000) on a source that ends after '
+                  '32768 bytes is answered OK: copy(sparse=False) succeeds '
+                  'with a short destination where get() raises Unexpected '
+                  'EOF', k.loc(fi, a),
+                  g.describe_path(bad) if bad else None)
+
+
+def r18(k: Kit) -> None:
+    """A block counts as read only as far as bytes came back."""
+    rep = k.rep
+    rep.rule('C12.R18', 'parallel reader: the count _SFTPFileReader.run_task '
+             'reports for a block is len() of the data it returns - the '
+             'I/O loop re-requests the rest of a block from that count, so '
+             'it must not be replaced by the requested size on any reply '
+             'flag; and the version 6 end-of-file flag the server puts on a '
+             'DATA reply is computed from the file size (fstat), not from '
+             'the reply being shorter than the request')
+    rt = k.func('sftp._SFTPFileReader.run_task')
+    g = k.cfg(rt)
+    rets = [x for x in g.nodes if x.kind == 'return']
+    rep.floor('C12.R18', 'returns of the block reader', len(rets), 1)
+    for r in rets:
+        v = r.ast.value
+        ok = isinstance(v, ast.Tuple) and len(v.elts) == 2 and \
+            is_call(v.elts[0], 'len') and v.elts[0].args and \
+            dotted(v.elts[0].args[0]) == dotted(v.elts[1]) is not None
+        rep.check(ok, 'C12.R18', key(rt, 'count is what was read'),
+                  'return len(data), data',
+                  f'`{norm(r.ast)}`: a block can be reported complete with '
+                  'fewer bytes than asked for - the remainder is never '
+                  'requested and read() returns the file with zero-filled '
+                  'gaps, no error', k.loc(rt, r))
+    pr = k.func('sftp.SFTPServerHandler._process_read')
+    g = k.cfg(pr)
+    rd = k.rd(pr)
+    st = [(n, v) for n, v in k.stores_to(pr, 'at_end')
+          if v is not None and not (isinstance(v, ast.Constant) and
+                                    v.value is False)]
+    rep.floor('C12.R18', 'end-of-file flag computations', len(st), 1)
+    for n, v in st:
+        deps = depends_on(g, rd, n.id, v)
+        ok = 'fstat' in ' '.join(deps) or any(
+            d.endswith('.size') for d in deps)
+        rep.check(ok and 'length' not in names_read(v), 'C12.R18',
+                  key(pr, 'end-of-file flag from the file size'),
+                  'at_end compares the position with the fstat size',
+                  f'`at_end = {norm(v)}`: a short read is announced as end '
+                  'of file - a backend that returns fewer bytes than asked '
+                  '(network file system, user subclass) makes version 6 '
+                  'clients stop reading early', k.loc(pr, n))
+
+
+def r19(k: Kit) -> None:
+    """The local side of get() writes whole blocks or raises."""
+    rep = k.rep
+    rep.rule('C12.R19', 'LocalFile.write: the local destination is written '
+             'through the buffered file object (complete or OSError); a '
+             'raw os.write / os.pwrite - which may take only part of the '
+             'block - is repeated or its count tested, because '
+             '_SFTPFileCopier.run_task discards what write() returns')
+    fi = k.func('sftp.LocalFile.write')
+    g = k.cfg(fi)
+    rd = k.rd(fi)
+    raw = [(n, c) for n, c in k.call_nodes(fi, lambda c: dotted(c.func) in (
+        'os.write', 'os.pwrite', 'os.writev', 'os.pwritev'))]
+    buf = [(n, c) for n, c in k.calls_named(fi, 'write', 'self._file')]
+    rep.floor('C12.R19', 'writes in LocalFile.write', len(raw) + len(buf), 1)
+    for n, c in raw:
+        looped = any(lab != 'exc' and (b == n.id or
+                                       g.path(b, n.id, follow_exc=False))
+                     for b, lab in g.succ[n.id])
+        defs = {nm for nm, v in rd.defs[n.id]}
+        tested = any(a.kind == 'atom' and a.ast is not None and
+                     g.path(n.id, a.id, follow_exc=False) and
+                     defs & depends_on(g, rd, a.id, a.ast) for a in g.nodes)
+        rep.check(looped or tested, 'C12.R19',
+                  key(fi, 'partial local write is not success'),
+                  'raw write repeated / count tested',
+                  f'`{norm(c)[:60]}` may write part of the block and its '
+                  'count is returned to a caller that ignores it: get() '
+                  'into a file system that fills up inside the last block '
+                  '(quota, RLIMIT_FSIZE) reports success for a truncated '
+                  'file', k.loc(fi, n))
+    if not raw:
+        rep.ok('C12.R19', key(fi, 'partial local write is not success'),
+               'only buffered writes')
+
+
 def run(idx, rep, tier):
     k = Kit(idx, rep)
     rep.assumptions += NOT_DECIDED
@@ -933,6 +1103,10 @@ def run(idx, rep, tier):
     r12(k)
     r13(k)
     r14(k)
+    r16(k)
+    r17(k)
+    r18(k)
+    r19(k)
     rep.rule('C12.R15', 'SFTPClientFile.read: the size computed for a read '
              'to end of file is clamped at 0 (position past the end reads '
              'as empty): a negative size reaches UInt32() as OverflowError')
